@@ -42,3 +42,7 @@ pub fn replay(ctx: &Ctx, doc: &Value) -> Option<Report> {
 pub fn c19_child(args: &[String]) {
     c19::child(args);
 }
+
+pub fn staking_replay(ctx: &Ctx, w: &Value) -> Report {
+    staking::replay(ctx, w)
+}
